@@ -724,3 +724,249 @@ theorem execStep_elem (p : P) (b : Bytes) (h : p.state.current.major = 0xa9) :
   simp +decide [execStep, h]
 
 end SF.Cbor.Parse
+
+namespace SF.Cbor.Parse
+open SF SF.Cbor SF.Cbor.Cst
+
+/-! ## container bodies -/
+
+/-- `q` is inside the body of a container opened from configuration `Q`: the state stack is
+`Q`'s with the container state `s` on top; for definite containers (`withLen`) the length
+stack is `Q`'s with one entry pushed -/
+structure Body (Q q : P) (s : St) (withLen : Bool) : Prop where
+  state : q.state = (pushState Q s).state
+  lstack : if withLen then q.length.stack = Q.length.current :: Q.length.stack else q.length = Q.length
+  buf : q.buffer = []
+  nofail : q.failAt = none
+  err : q.err = Q.err
+
+def withEvs (Q : P) (evs : List Ev) : P := { Q with evs := evs }
+
+theorem body_good {Q q : P} {s : St} {wl : Bool} (hQ : Good Q) (hs : s.major ≠ stFail)
+    (h : Body Q q s wl) : Good q := by
+  refine ⟨h.buf, h.nofail, ?_⟩
+  rw [h.state, pushState_current hQ.notFail]; exact hs
+
+theorem body_current {Q q : P} {s : St} {wl : Bool} (hQ : Good Q) (h : Body Q q s wl) :
+    q.state.current = s := by
+  rw [h.state, pushState_current hQ.notFail]
+
+theorem body_depth {Q q : P} {s : St} {wl : Bool} (hQ : Good Q) (h : Body Q q s wl) :
+    depth q = depth Q + 1 := by
+  simp only [depth, h.state]
+  exact depth_pushState hQ.notFail s
+
+theorem body_addEvs {Q q : P} {s : St} {wl : Bool} (h : Body Q q s wl) (es : List Ev) :
+    Body Q (addEvs q es) s wl :=
+  ⟨h.state, h.lstack, h.buf, h.nofail, h.err⟩
+
+theorem body_decLen {Q q : P} {s : St} (h : Body Q q s true) (n : Int) :
+    Body Q (decLen q n) s true :=
+  ⟨h.state, by have := h.lstack; simpa [decLen] using this, h.buf, h.nofail, h.err⟩
+
+/-- leaving a definite container restores `Q` (with the events delivered meanwhile) -/
+theorem body_close_len {Q q : P} {s : St} (hQ : Good Q) (h : Body Q q s true) :
+    popSt (popLen q) = withEvs Q q.evs := by
+  have hs := h.state
+  have hl := h.lstack
+  simp only [if_true] at hl
+  cases q with
+  | mk state length buffer err evs failAt =>
+    cases length with
+    | mk lstack lcur =>
+      cases Q with
+      | mk Qstate Qlength Qbuffer Qerr Qevs QfailAt =>
+        cases Qstate with
+        | mk Qstack Qcur =>
+          cases Qlength with
+          | mk Qlstack Qlcur =>
+            have hnf : Qcur.major ≠ stFail := hQ.notFail
+            have hb := h.buf; have hf := h.nofail; have he := h.err
+            have hQb := hQ.buf; have hQf := hQ.nofail
+            simp only [pushState, StateStack.push] at hs
+            simp only [hnf, bne_iff_ne, ne_eq, not_false_eq_true, if_true] at hs
+            simp only at hl hb hf he hQb hQf
+            subst hs hl hb hf he hQb
+            simp [popSt, popLen, LenStack.pop, StateStack.pop, withEvs, hQf]
+
+/-- leaving an indefinite container restores `Q` -/
+theorem body_close_indef {Q q : P} {s : St} (hQ : Good Q) (h : Body Q q s false) :
+    popSt q = withEvs Q q.evs := by
+  have hs := h.state
+  have hl := h.lstack
+  simp only [Bool.false_eq_true, if_false] at hl
+  cases q with
+  | mk state length buffer err evs failAt =>
+    cases Q with
+    | mk Qstate Qlength Qbuffer Qerr Qevs QfailAt =>
+      cases Qstate with
+      | mk Qstack Qcur =>
+        have hnf : Qcur.major ≠ stFail := hQ.notFail
+        have hb := h.buf; have hf := h.nofail; have he := h.err
+        have hQb := hQ.buf; have hQf := hQ.nofail
+        simp only [pushState, StateStack.push] at hs
+        simp only [hnf, bne_iff_ne, ne_eq, not_false_eq_true, if_true] at hs
+        simp only at hl hb hf he hQb hQf
+        subst hs hl hb hf he hQb
+        simp [popSt, StateStack.pop, withEvs, hQf]
+
+theorem depth_withEvs (Q : P) (evs : List Ev) : depth (withEvs Q evs) = depth Q := rfl
+
+theorem good_withEvs {Q : P} (h : Good Q) (evs : List Ev) : Good (withEvs Q evs) :=
+  ⟨h.buf, h.nofail, h.notFail⟩
+
+end SF.Cbor.Parse
+
+namespace SF.Cbor.Parse
+open SF SF.Cbor SF.Cbor.Cst
+
+def endEv (major : UInt8) : Ev := if major == majorArr then .arrEnd else .objEnd
+
+/-- a value completed inside a definite container that still expects more -/
+theorem onValueR_more {Q q : P} {major : UInt8} (hmaj : major = majorArr ∨ major = majorMap)
+    (hQ : Good Q) (h : Body Q q ⟨major, stStart⟩ true) (hl : q.length.current - 1 > 0) (rest : Bytes) :
+    onValueR q rest = { p := decLen q 1, rest := rest } := by
+  have hcur : q.state.current.major = major := by rw [body_current hQ h]
+  have hl2 : 1 < q.length.current := by omega
+  unfold onValueR onValue
+  rcases hmaj with rfl | rfl <;>
+    simp +decide [hcur, decLen, hl2]
+
+/-- a value completed inside a definite container that is now full: the container is
+finished and the completion is passed on to the enclosing configuration -/
+theorem onValueR_full {Q q : P} {major : UInt8} (hmaj : major = majorArr ∨ major = majorMap)
+    (hQ : Good Q) (h : Body Q q ⟨major, stStart⟩ true) (hl : ¬ q.length.current - 1 > 0) (rest : Bytes) :
+    onValueR q rest = onValueR (withEvs Q (endEv major :: q.evs)) rest := by
+  have hcur : q.state.current.major = major := by rw [body_current hQ h]
+  have hd := body_depth hQ h
+  have hb := body_addEvs (body_decLen h 1) [endEv major]
+  have hclose := body_close_len hQ hb
+  have hv : visit (decLen q 1) (endEv major) = (addEvs (decLen q 1) [endEv major], none) :=
+    visit_good (by simpa [decLen] using h.nofail) _
+  have hl' : ¬ (decLen q 1).length.current > 0 := by simpa [decLen] using hl
+  conv => lhs; unfold onValueR onValue
+  rcases hmaj with rfl | rfl
+  · simp only [hcur, beq_self_eq_true, Bool.true_or, if_true, hl', if_false]
+    simp only [endEv, beq_self_eq_true, if_true] at hv hclose ⊢
+    rw [hv]
+    simp only [hd]
+    rw [hclose]
+    simp [onValueR, depth_withEvs, addEvs, decLen]
+  · have hne : (majorMap == majorArr) = false := by decide
+    simp only [hcur, hne, beq_self_eq_true, Bool.or_true, if_true, hl', if_false, Bool.false_eq_true]
+    simp only [endEv, hne, Bool.false_eq_true, if_false] at hv hclose ⊢
+    rw [hv]
+    simp only [hd]
+    rw [hclose]
+    simp [onValueR, depth_withEvs, addEvs, decLen]
+
+/-- stepArray / stepMap on an exhausted definite container (length 0 from the start) -/
+theorem handleLen_empty {Q q : P} {major : UInt8} (hmaj : major = majorArr ∨ major = majorMap)
+    (hQ : Good Q) (h : Body Q q ⟨major, stStart⟩ true) (hl : q.length.current = 0) (b : Bytes) :
+    (let (p, done, err) := handleLenD (major == majorArr) (depth q) q
+     ({ p := p, rest := b, done := done, err := err } : R)) =
+      onValueR (withEvs Q (endEv major :: q.evs)) b := by
+  have hd := body_depth hQ h
+  have hb := body_addEvs h [endEv major]
+  have hclose := body_close_len hQ hb
+  have hv : visit q (endEv major) = (addEvs q [endEv major], none) := visit_good h.nofail _
+  have hev : (if (major == majorArr) = true then Ev.arrEnd else Ev.objEnd) = endEv major := rfl
+  simp only [handleLenD, hl, Int.lt_irrefl, gt_iff_lt, if_false, hev, hv, hd, popState]
+  rw [hclose]
+  simp [onValueR, depth_withEvs, addEvs]
+
+theorem onValueR_indef {Q q : P} {s : St} (hs : s.major = 0x81 ∨ s.major = 0xa1)
+    (hQ : Good Q) (h : Body Q q s false) (rest : Bytes) :
+    onValueR q rest = { p := q, rest := rest } := by
+  have hcur : q.state.current.major = s.major := by rw [body_current hQ h]
+  unfold onValueR onValue
+  rcases hs with hs | hs <;> simp +decide [hcur, hs]
+
+/-- the break byte of an indefinite container -/
+theorem popStateR_indef {Q q : P} {s : St} (hQ : Good Q) (h : Body Q q s false) (e : Ev) (rest : Bytes) :
+    popStateR (addEvs q [e]) rest = onValueR (withEvs Q (e :: q.evs)) rest := by
+  have hd := body_depth hQ h
+  have hclose := body_close_indef hQ (body_addEvs h [e])
+  simp only [popStateR, depth_addEvs, hd, popState, hclose]
+  simp [onValueR, depth_withEvs, addEvs]
+
+end SF.Cbor.Parse
+
+namespace SF.Cbor.Parse
+open SF SF.Cbor SF.Cbor.Cst
+
+theorem ofNat_128 : UInt8.ofNat (4 * 32) = majorArr := by decide
+theorem ofNat_160 : UInt8.ofNat (5 * 32) = majorMap := by decide
+
+/-- head of a definite array / map: 0 or 1 iterations later the parser sits in the start
+state with the length pushed -/
+theorem sub_head {Q : P} (hQ : Good Q) (major : UInt8) (hm1 : major ≠ stFail)
+    (hm2 : (major ||| stStartX) ≠ stFail)
+    (w : W) (n : Nat) (h : w.fits n = true) (hn : n < 9223372036854775808) (payload : Bytes) (f : Nat) :
+    loopFrom (f + wcost w) (initSub Q major (UInt8.ofNat (w.ai n)) (beBytes w.bytes n ++ payload)) =
+      loopFrom f { p := pushLen (pushState (pushState Q ⟨major, stStart⟩) ⟨major ||| stStartX, stStart⟩) n,
+                   rest := payload } := by
+  have hai := ai_lt w n h
+  have hne : ¬ (UInt8.ofNat (w.ai n) = lenIndef) := by
+    intro h'
+    have := congrArg UInt8.toNat h'
+    rw [ofNat_toNat_small (by omega)] at this
+    simp [lenIndef] at this
+    cases w <;> simp_all [W.ai, W.fits]
+  by_cases hw : w = .imm
+  · subst hw
+    have hn24 : n < 24 := by simpa [W.fits] using h
+    have h3 : (UInt8.ofNat n < len8b) := (ofNat_lt_len8b (by omega)).mpr hn24
+    have hne' : ¬ (UInt8.ofNat n = lenIndef) := by simpa [W.ai] using hne
+    simp only [W.ai, W.bytes, beBytes, List.nil_append, wcost, if_true, Nat.add_zero, initSub, h3,
+      ofNat_toNat_small (show n < 256 by omega), beq_iff_eq, hne', if_false]
+  · obtain ⟨h24, h27⟩ := ai_ge w n hw
+    have h3 : ¬ (UInt8.ofNat (w.ai n) < len8b) := by rw [ofNat_lt_len8b (by omega)]; omega
+    have h5 : ¬ (UInt8.ofNat (w.ai n) > len64b) := by rw [ofNat_gt_len64b (by omega)]; omega
+    simp only [wcost, hw, if_false, initSub, h3, h5, beq_iff_eq, hne]
+    rw [loopFrom_step _ _ rfl rfl (contParse_of_rest (by simp [beBytes_ne_nil w n hw]))]
+    rw [execStep_stLen (good_pushState (good_pushState hQ _ hm1) _ hm2) w n hw h hn]
+
+theorem initSub_indef (Q : P) (major : UInt8) (bs : Bytes) :
+    initSub Q major (UInt8.ofNat 31) bs =
+      { p := pushState (pushState Q ⟨major ||| stIndef, stStart⟩) ⟨major ||| stStartX ||| stIndef, stStart⟩,
+        rest := bs } := by
+  have h31 : UInt8.ofNat 31 = lenIndef := by decide
+  simp [initSub, h31]
+
+/-! ## facts about wire forms -/
+
+theorem wire_first (t : Item) (h : t.ok = true) : ∃ b0 bs, t.wire = b0 :: bs ∧ b0 ≠ 0xff := by
+  have hib : ∀ (m : Fin 6) (a : Fin 32), ib m.val a.val ≠ 0xff := by decide
+  have hib' : ∀ m a, m < 6 → a < 32 → ib m a ≠ 0xff := fun m a hm ha => hib ⟨m, hm⟩ ⟨a, ha⟩
+  cases t with
+  | uint w n => exact ⟨_, _, rfl, hib' 0 _ (by omega) (ai_lt w n (by simpa [Item.ok] using h))⟩
+  | nint w n =>
+    simp only [Item.ok, Bool.and_eq_true] at h
+    exact ⟨_, _, rfl, hib' 1 _ (by omega) (ai_lt w n h.1)⟩
+  | bytes w bs =>
+    simp only [Item.ok, Bool.and_eq_true] at h
+    exact ⟨_, beBytes w.bytes bs.length ++ bs, by simp [Item.wire, head_eq], hib' 2 _ (by omega) (ai_lt w _ h.1)⟩
+  | text w bs =>
+    simp only [Item.ok, Bool.and_eq_true] at h
+    exact ⟨_, beBytes w.bytes bs.length ++ bs, by simp [Item.wire, head_eq], hib' 3 _ (by omega) (ai_lt w _ h.1)⟩
+  | arr w xs =>
+    simp only [Item.ok, Bool.and_eq_true] at h
+    exact ⟨_, beBytes w.bytes xs.length ++ wireList xs, by simp [Item.wire, head_eq], hib' 4 _ (by omega) (ai_lt w _ h.1.1)⟩
+  | map w ms =>
+    simp only [Item.ok, Bool.and_eq_true] at h
+    exact ⟨_, beBytes w.bytes ms.length ++ wireMems ms, by simp [Item.wire, head_eq], hib' 5 _ (by omega) (ai_lt w _ h.1.1)⟩
+  | arrIndef xs => exact ⟨_, _, rfl, by decide⟩
+  | mapIndef ms => exact ⟨_, _, rfl, by decide⟩
+  | fals => exact ⟨_, _, rfl, by decide⟩
+  | tru => exact ⟨_, _, rfl, by decide⟩
+  | null => exact ⟨_, _, rfl, by decide⟩
+  | undef => exact ⟨_, _, rfl, by decide⟩
+  | f32 b => exact ⟨_, _, rfl, by decide⟩
+  | f64 b => exact ⟨_, _, rfl, by decide⟩
+
+theorem wire_ne_nil (t : Item) (h : t.ok = true) : t.wire ≠ [] := by
+  obtain ⟨b0, bs, hw, _⟩ := wire_first t h
+  simp [hw]
+
+end SF.Cbor.Parse
